@@ -4,5 +4,7 @@ MCCfgSet == {cf \in [max : {0 - 1, 0, 1, 2}, pol : {"none", "fixed", "exp", "cus
               (cf.pol = "fixed" => cf.b0 = 2) /\ (cf.pol # "fixed" => cf.b0 = 1)}
 MCOuts == {"ok", "e1", "e2"}
 Bound == \A c \in Callers : attempt[c] <= 4
+\* transition tour: every transition of the (small) model, printed with the level of its source state
+TourDump == PrintT(<<"EDGE", TLCGet("level"), ToJson([f |-> view, t |-> view', cfg |-> cfg, ev |-> ev'])>>)
 GenPrint == PrintT(<<"GEN", TLCGet("level"), ToJson([cfg |-> cfg, ev |-> ev])>>)
 =============================================================================
